@@ -157,11 +157,11 @@ def run_harness(exe, outdir, seed, tier, extra_args=None, timeout=3600, env=None
     except subprocess.TimeoutExpired as ex:
         return -9, 'TIMEOUT ' + str(ex)
 
-def drv_path(): return os.path.join(LEAN, '.lake', 'build', 'bin', 'drv')
+def drv_path(name): return os.path.join(LEAN, '.lake', 'build', 'bin', 'drv_' + name.lower())
 
-def run_driver(req_file, out_file):
+def run_driver(req_file, out_file, name):
     with open(req_file) as fi, open(out_file, 'w') as fo:
-        r = subprocess.run([drv_path()], stdin=fi, stdout=fo, stderr=subprocess.PIPE, text=True)
+        r = subprocess.run([drv_path(name)], stdin=fi, stdout=fo, stderr=subprocess.PIPE, text=True)
     return r.returncode, r.stderr[-1000:]
 
 # ---------------------------------------------------------------- comparison
@@ -265,7 +265,7 @@ TRUSTED_COMMON = [
     'g++ 12 / libstdc++ / Eigen 3.4.0 behave as compiled (-O1 -ffp-contract=off -DEIGEN_DONT_VECTORIZE)',
 ]
 
-def standard_prove(run, prop, gen_modules, extra_targets=None):
+def standard_prove(run, prop, gen_modules, extra_targets=None, drivers=None):
     """steps 2+3 for one property: regen, build property module and driver, audit.  Fills run.obligations."""
     with Lock('lean'):
         fails = regen()
@@ -290,10 +290,12 @@ def standard_prove(run, prop, gen_modules, extra_targets=None):
                 if not any(t in p for p in problems): run.oblige('theorem:' + t, True, 'axioms: ' + ','.join(axs.get(t, [])))
             if run.tier == 'thorough':
                 okc, lg = leanchecker(mod); run.oblige('leanchecker:' + mod, okc, lg)
-        okd, logd = lake_build(['drv'] + (extra_targets or []))
-        if not okd:
-            errs = first_errors(logd)
-            run.oblige('build:drv', False, (str(errs[:2]) if errs else logd[-600:]))
+        okd = True
+        for d in (drivers if drivers is not None else [prop]):
+            okx, logd = lake_build(['drv_' + d.lower()] + (extra_targets or []))
+            if not okx:
+                errs = first_errors(logd); okd = False
+                run.oblige('build:drv_' + d.lower(), False, (str(errs[:2]) if errs else logd[-600:]))
         return ok and okd, thms
 
 def load_oracle(path):
@@ -307,9 +309,10 @@ def load_oracle(path):
     return out
 
 def standard_corr(run, harness, corr_name, soft_ulps=0, float_fields=None, sanitize=True, extra_flags=None,
-                  harness_args=None, timeout=3000, search_on_broken=True, opt=None, tier=None):
+                  harness_args=None, timeout=3000, search_on_broken=True, opt=None, tier=None, driver=None):
     """steps 4+5: build harness from /repo, run real code, run the Lean driver on the same requests, compare, load oracle failures"""
     tier = tier or run.tier
+    driver = driver or run.prop
     exe, log = build_harness(harness, sanitize=sanitize, extra=extra_flags, opt=opt)
     if exe is None:
         run.oblige(f'harness-build:{harness}', False, log); return None
@@ -332,8 +335,8 @@ def standard_corr(run, harness, corr_name, soft_ulps=0, float_fields=None, sanit
     # model side
     req = os.path.join(out, 'requests.txt'); impl = os.path.join(out, 'impl.txt'); model = os.path.join(out, 'model.txt')
     cmp = None
-    if os.path.exists(req) and os.path.getsize(req) > 0 and os.path.exists(drv_path()):
-        rcd, err = run_driver(req, model)
+    if os.path.exists(req) and os.path.getsize(req) > 0 and os.path.exists(drv_path(driver)):
+        rcd, err = run_driver(req, model, driver)
         if rcd != 0: run.oblige(f'corr:{corr_name}', False, 'driver crashed: ' + err)
         else:
             cmp = compare_streams(req, impl, model, soft_ulps, float_fields)
